@@ -43,6 +43,12 @@ pub struct Restr {
     pub turns: Option<Vec<(usize, usize)>>,
     /// edges cut by an alternative-route search (EdgeCutFrontierModel wrapped around the rest)
     pub cut: Vec<usize>,
+    /// 0 = the services are constructed directly; otherwise they are built by the repository's builders from files written
+    /// for the purpose: 1 = one entry per model, rows in the listed order; 2 = the vehicle rows spread out (a row of another
+    /// edge that binds no vehicle between any two rows, so that the rows of one edge are not neighbours in the file);
+    /// 3 = vehicle rows and restricted turns split over two entries of the same type inside one combined model
+    #[serde(default)]
+    pub from_files: u8,
 }
 
 fn dist_unit(name: &str) -> Option<DistanceUnit> {
@@ -66,7 +72,89 @@ impl Restr {
         }
         q
     }
-    pub fn service(&self) -> Arc<dyn FrontierModelService> {
+    /// the configuration route: files + builders (`m` = number of edges of the network)
+    fn service_from_files(&self, m: usize) -> Result<Arc<dyn FrontierModelService>, String> {
+        use routee_compass::app::compass::config::frontier_model::combined::combined_builder::CombinedBuilder;
+        use routee_compass::app::compass::config::frontier_model::road_class::road_class_builder::RoadClassBuilder;
+        use routee_compass::app::compass::config::frontier_model::turn_restrictions::turn_restriction_builder::TurnRestrictionBuilder;
+        use routee_compass::app::compass::config::frontier_model::vehicle_restrictions::vehicle_restriction_builder::VehicleRestrictionBuilder;
+        use routee_compass_core::model::frontier::frontier_model_builder::FrontierModelBuilder;
+        let scratch = crate::world::app::Scratch::new("c04f");
+        let d = &scratch.path;
+        let w = |name: &str, text: String| -> Result<String, String> {
+            let p = d.join(name);
+            std::fs::write(&p, text).map_err(|e| format!("harness: cannot write {}: {}", name, e))?;
+            Ok(p.to_str().unwrap_or("").to_string())
+        };
+        let mut entries: Vec<Value> = vec![];
+        // vehicle rows: one file, or two (mode 3)
+        let row_text = |rows: &[RawRestriction], spread: bool| -> String {
+            let mut t = String::from("edge_id,restriction_name,restriction_value,restriction_unit\n");
+            for (i, r) in rows.iter().enumerate() {
+                if spread && i > 0 && m > 1 {
+                    t.push_str(&format!("{},maximum_height,1000000,meters\n", (r.edge + 1) % m));
+                }
+                t.push_str(&format!("{},{},{},{}\n", r.edge, r.kind, r.value, r.unit));
+            }
+            t
+        };
+        let turn_text = |pairs: &[(usize, usize)]| -> String {
+            let mut t = String::from("prev_edge_id,next_edge_id\n");
+            for (a, b) in pairs {
+                t.push_str(&format!("{},{}\n", a, b));
+            }
+            t
+        };
+        let split = self.from_files == 3;
+        if !self.vehicle_rows.is_empty() {
+            if split {
+                let h = (self.vehicle_rows.len() + 1) / 2;
+                entries.push(json!({"type": "vehicle_restriction", "vehicle_restriction_input_file": w("vr_a.csv", row_text(&self.vehicle_rows[..h], false))?}));
+            } else {
+                entries.push(json!({"type": "vehicle_restriction", "vehicle_restriction_input_file": w("vr.csv", row_text(&self.vehicle_rows, self.from_files == 2))?}));
+            }
+        }
+        if let Some(t) = &self.turns {
+            let h = if split { (t.len() + 1) / 2 } else { t.len() };
+            entries.push(json!({"type": "turn_restriction", "turn_restriction_input_file": w("turns_a.csv", turn_text(&t[..h]))?}));
+        }
+        if !self.classes.is_empty() {
+            let mapping: HashMap<String, u8> = self.class_names.iter().cloned().collect();
+            let text: String = self.classes.iter().map(|c| format!("{}\n", c)).collect();
+            entries.push(json!({"type": "road_class", "road_class_input_file": w("classes.txt", text)?, "road_class_parser": {"mapping": mapping}}));
+        }
+        if split {
+            if !self.vehicle_rows.is_empty() {
+                let h = (self.vehicle_rows.len() + 1) / 2;
+                entries.push(json!({"type": "vehicle_restriction", "vehicle_restriction_input_file": w("vr_b.csv", row_text(&self.vehicle_rows[h..], false))?}));
+            }
+            if let Some(t) = &self.turns {
+                let h = (t.len() + 1) / 2;
+                entries.push(json!({"type": "turn_restriction", "turn_restriction_input_file": w("turns_b.csv", turn_text(&t[h..]))?}));
+            }
+        }
+        let combined = CombinedBuilder { builders: HashMap::new() }
+            .register_builder("road_class".to_string(), std::rc::Rc::new(RoadClassBuilder {}))
+            .register_builder("vehicle_restriction".to_string(), std::rc::Rc::new(VehicleRestrictionBuilder {}))
+            .register_builder("turn_restriction".to_string(), std::rc::Rc::new(TurnRestrictionBuilder {}));
+        let built = match entries.len() {
+            0 => return Ok(Arc::new(NoRestriction {})),
+            1 if !split => match entries[0]["type"].as_str() {
+                Some("road_class") => RoadClassBuilder {}.build(&entries[0]),
+                Some("vehicle_restriction") => VehicleRestrictionBuilder {}.build(&entries[0]),
+                _ => TurnRestrictionBuilder {}.build(&entries[0]),
+            },
+            _ => combined.build(&json!({"type": "combined", "models": entries})),
+        };
+        built.map_err(|e| format!("the builder rejects {}: {}", json!(entries), e))
+    }
+    pub fn service(&self, m: usize) -> Result<Arc<dyn FrontierModelService>, String> {
+        if self.from_files > 0 {
+            return self.service_from_files(m);
+        }
+        Ok(self.service_direct())
+    }
+    fn service_direct(&self) -> Arc<dyn FrontierModelService> {
         let mut inner: Vec<Arc<dyn FrontierModelService>> = vec![];
         if !self.classes.is_empty() {
             let mapping: HashMap<String, u8> = self.class_names.iter().cloned().collect();
@@ -162,7 +250,22 @@ pub fn check_case(w: &World, r: &Restr, algo: &Algo, orient: &Orient, reverse: b
     let sm = Arc::new(w.state_model());
     let case = || case_json(w, algo, orient, reverse, json!({"restrictions": r}));
     let size = net.size() + (r.n_models() * 3 + r.vehicle_rows.len() + r.turns.as_ref().map_or(0, |t| t.len())) as u64;
-    let model = match crate::engine::guarded(|| r.service().build(&query, sm.clone())) {
+    let service = match crate::engine::guarded(|| r.service(net.m())) {
+        Ok(Ok(s)) => s,
+        Ok(Err(e)) if e.starts_with("harness") => {
+            st.violation("harness", "restriction_files", 0, || e.clone(), case);
+            return;
+        }
+        Ok(Err(e)) => {
+            st.violation("frontier_builder", "builds_from_valid_configuration", size, || e.clone(), case);
+            return;
+        }
+        Err(p) => {
+            st.violation("frontier_builder", "no_panic", size, || p.clone(), case);
+            return;
+        }
+    };
+    let model = match crate::engine::guarded(|| service.build(&query, sm.clone())) {
         Ok(Ok(m)) => m,
         Ok(Err(e)) => {
             st.violation("frontier_service.build", "builds_from_valid_query", size, || e.to_string(), case);
@@ -432,7 +535,20 @@ pub fn for_net(net: &Net, tier: Tier, st: &mut Stats) {
     let m = net.m();
     let w = World::distance(net.clone());
     let idx = net.hash_idx() as usize;
-    for r in restrictions(net, tier).iter() {
+    for (ri, r) in restrictions(net, tier).iter().enumerate() {
+        // the configuration route for a rotating subset of the restriction sets: the same searches against services built by
+        // the repository's builders from files (three layouts of the same rows, see Restr::from_files)
+        if r.n_models() > 0 && (ri + idx) % tier.pick(40, 8) == 0 {
+            let mut r2 = r.clone();
+            r2.from_files = 1 + ((ri + idx) / tier.pick(40, 8) % 3) as u8;
+            for algo in [Algo::Dijkstra, Algo::SingleVia { k: 3, under: Box::new(Algo::Dijkstra), sim: Some(Sim::EdgeCos(0.99)), term: None }].iter() {
+                check_case(&w, &r2, algo, &Orient::Vertex { o: 0, d: Some(n - 1) }, false, st);
+                if !algo.is_ksp() {
+                    check_case(&w, &r2, algo, &Orient::Vertex { o: 0, d: None }, false, st);
+                    check_case(&w, &r2, algo, &Orient::Vertex { o: 0, d: Some(n - 1) }, true, st);
+                }
+            }
+        }
         for algo in algos(tier).iter() {
             check_case(&w, r, algo, &Orient::Vertex { o: 0, d: Some(n - 1) }, false, st);
             if !algo.is_ksp() {
